@@ -111,6 +111,14 @@ PROF = gen.Profile(kinds=["region"] * 6 + ["state", "flush", "kernel"], models=m
                    wild_kinds=["region", "region", "gated", "gated", "unknown"])
 
 
+# the same with the breakdown option on (-b, alone or together with -l): verdicts must not change
+PROF_B = gen.Profile(kinds=["region"] * 6 + ["state", "task"],
+                     models=lambda draw: draw(st.sampled_from([["V"], ["6"], ["V", "6"], ["6", "M"], ["V", "T"]])),
+                     max_looms=1, max_procs=1, max_threads=2, max_cpus=2, steps=(6, 50),
+                     modes=("legal", "illegal", "noend", "noend"), lint=None, breakdown=True,
+                     wild_kinds=["region", "region", "gated", "unknown"], extra_flags=("-b",))
+
+
 def nt(case, res):
     d = case.get("_depth")
     if d is None:
@@ -142,4 +150,6 @@ def parts(tier):
         Part("nesting-depth", run, enum=enum_depth),
         Part("histories", run, strategy=lambda ctx: gen.history(PROF),
              budget={"quick": 6000, "thorough": 90000}),
+        Part("histories-with-breakdown-option", run, strategy=lambda ctx: gen.history(PROF_B),
+             budget={"quick": 2000, "thorough": 30000}),
     ]
